@@ -1,8 +1,8 @@
 """C11 -- baskets: books match the bank, backing, mint/burn/swap value preservation, limits, caps,
 switches.  Hand-written model (Model/Basket.v) + proofs + differential run of the real basket msg
 server / proposal handlers / hooks / end blocker on multi-holder histories; spec checker evaluated in
-Coq on the real observations.  The model is parametric in three repaired places (burn reads the supply
-before burning / EditBasket keeps the amount (68b9c08) / pool-upsert hook skips); the harness probes which
+Coq on the real observations.  The model is parametric in four repaired places (burn reads the supply
+before burning / EditBasket keeps the amount (68b9c08) / pool-upsert hook skips (853c45f) / CreateBasket stores amount zero); the harness probes which
 variant the tree implements."""
 import json, os
 
@@ -48,7 +48,7 @@ def run(R):
     R.assume += ["amounts stay far below the 256-bit / 315-bit limits of sdk.Int / sdk.Dec (overflow panics of Dec are modelled, those of Int are not)",
                  "underlying denominations are unique in a basket (CreateBasket/EditBasket reject duplicates; modelled) and weights are positive in generated configurations",
                  "block times are unix nanoseconds (sub-second parts, several messages per block time); limits periods stay below 2^33 s",
-                 "after AfterUpsertStakingPool replaced the record of basket 1 the history ends (later operations on the replaced record are not modelled)"]
+                 "holders act on basket 1; the other baskets (ids 2..) are funded through the real msg server before the history starts and are afterwards touched only by the create / withdraw-surplus proposals; the staking-reward claim at the end of BasketWithdrawSurplus is not modelled (the module account holds no delegation in the harness)"]
     R.coq_files(FILES)
     R.coq_property()
     R.audit()
@@ -58,8 +58,8 @@ def run(R):
     seen = set()
     if obs:
         out, mism, viol, total, cases, meta, dist = obs
-        R.oblige("correspondence: model (variant burn_pre=%s edit_keep=%s upsert_skip=%s) = real msg server / proposal handlers / hooks on %d histories, %d steps"
-                 % (meta.get("burn_reads_supply_before"), meta.get("edit_keeps_amount"), meta.get("upsert_hook_skips"), total, dist.get("steps", 0)), not mism,
+        R.oblige("correspondence: model (variant burn_pre=%s edit_keep=%s upsert_skip=%s create_zero=%s) = real msg server / proposal handlers / hooks on %d histories, %d steps"
+                 % (meta.get("burn_reads_supply_before"), meta.get("edit_keeps_amount"), meta.get("upsert_hook_skips"), meta.get("create_stores_zero_amount"), total, dist.get("steps", 0)), not mism,
                  "first mismatching histories: " + json.dumps([cases[i] for i in mism[:2]])[:6000])
         report(R, viol, cases, seen)
         R.samples = [cases[0]["steps"][:3], cases[len(cases) // 2]["steps"][:2]]
@@ -74,5 +74,5 @@ def run(R):
                 report(R, viol2, cases2, seen)
                 if R.violations:
                     break
-    R.finish(level="proof", technique="Coq proofs (invariants over histories by induction over the operation list) over a hand-written model of x/basket, parametric in three repairs probed on the tree, + differential run of the real msg server, proposal handlers, hooks and end blocker on multi-holder histories; spec checker vm_computed on the real observations",
+    R.finish(level="proof", technique="Coq proofs (invariants over histories by induction over the operation list) over a hand-written model of x/basket, parametric in four repairs probed on the tree, + differential run of the real msg server, proposal handlers, hooks and end blocker on multi-holder histories; spec checker vm_computed on the real observations",
              extra={"evaluations": total})
